@@ -1,6 +1,8 @@
 package main
 
 import (
+	"fmt"
+	"os"
 	"strings"
 
 	"golang.org/x/tools/go/ssa"
@@ -202,7 +204,16 @@ func propC02(a *Analysis, r *Registry) {
 			b.Eq(rB, name+"/returns", a.W.InstrPos(rets[0]), fc.Val(rets[0].Results[0]), env, "memo[N]")
 			nrec := 0
 			top := fc
-			// (the cell update may be made by a helper handed the rows)
+			// (the cell update may be made by a helper handed the rows; it may also be split over
+			// several loops, e.g. one for U1 < m where the left term vanishes and one for U1 >= m:
+			// every store must be the recurrence under what is known where it stands)
+			type recStore struct {
+				fc *FC
+				st *ssa.Store
+				ia *ssa.IndexAddr
+				n  *RF
+			}
+			var stores []recStore
 			for _, fc := range top.BoundCallees(1) {
 				fc := fc
 				fc.Ctx.Instrs(func(in ssa.Instruction) {
@@ -227,30 +238,69 @@ func propC02(a *Analysis, r *Registry) {
 						}
 						return
 					}
-					nrec++
-					n := row.Args[1]
-					U1 := fc.Val(ia.Index)
-					env.Set("n", n, nil)
-					env.Set("U1", U1, nil)
-					v := fc.Val(st.Val)
-					// m from the lp index: lp[U1-m] with lp = memo[n-1]
-					var m *RF
-					for _, at := range FindFn(v, "idx") {
-						if at.Args[0].Equal(env.MustParse("memo[n-1]")) {
+					stores = append(stores, recStore{fc, st, ia, row.Args[1]})
+				})
+			}
+			// m from the lp index of a store that has the left term: lp[U1-m] with lp = memo[n-1]
+			var m *RF
+			for _, rs := range stores {
+				env.Set("n", rs.n, nil)
+				U1 := rs.fc.Val(rs.ia.Index)
+				for _, at := range FindFn(rs.fc.Val(rs.st.Val), "idx") {
+					if at.Args[0].Equal(env.MustParse("memo[n-1]")) {
+						if mm := rs.fc.CanonIV(U1.Sub(at.Args[1]), U1); len(rs.fc.loopPhis(mm)) == 0 || m == nil {
 							m = U1.Sub(at.Args[1])
 						}
 					}
-					if m == nil {
-						r.Fail(rB, name+"/recurrence", a.W.InstrPos(st), "no term lp[U-m] with lp = memo[n-1] in the update: "+clip(v.String(), 300))
-						return
-					}
-					env.Set("m", m, nil)
+				}
+			}
+			for _, rs := range stores {
+				nrec++
+				fc, st := rs.fc, rs.st
+				U1 := fc.Val(rs.ia.Index)
+				env.Set("n", rs.n, nil)
+				env.Set("U1", U1, nil)
+				v := fc.Val(st.Val)
+				if m == nil {
+					r.Fail(rB, name+"/recurrence", a.W.InstrPos(st), "no term lp[U-m] with lp = memo[n-1] in the update: "+clip(v.String(), 300))
+					continue
+				}
+				env.Set("m", m, nil)
+				want := env.MustParse("(ite(0<=U1-m, n*memo[n-1][U1-m], 0) + m*ite(n<=m-1, memo[n], memo[m-1])[U1])/(n+m)")
+				if len(stores) == 1 {
 					b.Eq(rB, name+"/recurrence", a.W.InstrPos(st), v, env,
 						"(ite(0<=U1-m, n*memo[n-1][U1-m], 0) + m*ite(n<=m-1, memo[n], memo[m-1])[U1])/(n+m)")
-				})
+					// every U1 = 0 … min(U, n*m) is filled (in either direction)
+					b.FullScan("C-scan coverage", name+"/recurrence/all-U1", a.W.InstrPos(st), fc, U1, env.MustParse("ite(U<n*m, U, n*m)+1"))
+					continue
+				}
+				// several stores: each under the branch facts at the store and what the loop it
+				// stands in guarantees about U1-m (its sign, by induction over the loop)
+				g := fc.SignerAt(st)
+				var as []Assumption
+				d := U1.Sub(m)
+				if g.NonNeg(d) {
+					as = append(as, Assumption{Cond: S.Cmp("<=", S.Int(0), d), True: true})
+				} else if g.Pos(d.Neg()) {
+					as = append(as, Assumption{Cond: S.Cmp("<=", S.Int(0), d), True: false})
+				}
+				gv, wv := fc.atSite(st, X.SimplifyUnder(v, as), X.SimplifyUnder(want, as))
+				if os.Getenv("GMSA_DEBUG_C02") != "" {
+					fmt.Fprintf(os.Stderr, "C02 store %s: d=%s as=%d\n  gv=%s\n  wv=%s\n", a.W.InstrPos(st), d, len(as), gv, wv)
+					for _, sa := range fc.SiteAssumptions(st) {
+						if sa.Cond != nil {
+							fmt.Fprintf(os.Stderr, "   fact %v: %s\n", sa.True, clip(sa.Cond.String(), 200))
+						}
+					}
+				}
+				if gv.Equal(wv) || X.EquivByCasesUnder(gv, wv, append(fc.SiteAssumptions(st), as...)) {
+					r.OK(rB, name+"/recurrence", a.W.InstrPos(st), "≡ the recurrence, for the values of U1 this store is reached with")
+				} else {
+					r.Fail(rB, name+"/recurrence", a.W.InstrPos(st), "code computes "+clip(gv.String(), 400)+" ; the recurrence gives "+clip(wv.String(), 400))
+				}
 			}
-			if nrec != 1 {
-				r.Fail(rB, name+"/recurrence", b.pos(fn), "expected exactly one recurrence store into the table")
+			if nrec == 0 {
+				r.Fail(rB, name+"/recurrence", b.pos(fn), "expected a recurrence store into the table")
 			}
 		})
 	}
